@@ -564,7 +564,7 @@ fn scaled_sweep(ctx: &Ctx) {
         let depth = if raw.len() <= if ctx.quick() { 300 } else { 5000 } { Depth::L1 } else { Depth::L0 };
         if let Some(msg) = check_input(raw, depth, Some(ctx)) {
             let msg = check_input(raw, Depth::L1, None).unwrap_or(msg);
-            report(ctx, raw, format!("{label}: {msg}"), None);
+            report(ctx, raw, msg, None);
         }
         ctx.states.insert(digest(raw));
         if i % 97 == 5 {
